@@ -187,6 +187,15 @@ def to_repo(v):
     return v
 
 
+def override_value(v):
+    """Harness value -> value to pass in calculate(inputs=...) / a compiled
+    function.  A blank override is [[EMPTY]] (the form a model holds); a raw
+    sh.EMPTY is schedula's 'no value' sentinel, not an Excel value."""
+    if isinstance(v, Blank):
+        return [[EMPTY]]
+    return to_repo(v)
+
+
 def cell_eval(ref, formula, inputs=None, raises=False, context=None):
     """Evaluate one formula the way a model does: Cell(...).compile().add(dsp).
     `inputs` maps range names to Ranges (or to 2-D lists of harness values).
